@@ -21,7 +21,7 @@ def StoredCred (cfg : Cfg) (env : Env) (s : Session) : Prop :=
      (needsRefresh cfg env.now s0 = true ∧ env.lock = .obtained ∧
         ∃ s1, env.load2 = .ok s1 ∧
           ((needsRefresh cfg env.now s1 = false ∧ s = s1) ∨
-           (needsRefresh cfg env.now s1 = true ∧ validateSessionStep env s = true ∧
+           (needsRefresh cfg env.now s1 = true ∧ validateSessionStep cfg env s = true ∧
               ((∃ s', env.refresh s1 = .refreshed s' ∧ s = { s' with createdAt := some env.now }) ∨
                (env.refresh s1 = .notImplemented ∧ s = { s1 with createdAt := some env.now }) ∨
                ((env.refresh s1 = .notRefreshed ∨ env.refresh s1 = .err) ∧ s = s1))))))
@@ -35,7 +35,7 @@ def Cred (cfg : Cfg) (env : Env) (r : Req) (s : Session) : Prop :=
 theorem refreshUnderLock_sound (cfg : Cfg) (env : Env) (s1 s : Session)
     (h : (refreshUnderLock cfg env s1).session = some s) :
     (needsRefresh cfg env.now s1 = false ∧ s = s1) ∨
-    (needsRefresh cfg env.now s1 = true ∧ validateSessionStep env s = true ∧
+    (needsRefresh cfg env.now s1 = true ∧ validateSessionStep cfg env s = true ∧
       ((∃ s', env.refresh s1 = .refreshed s' ∧ s = { s' with createdAt := some env.now }) ∨
        (env.refresh s1 = .notImplemented ∧ s = { s1 with createdAt := some env.now }) ∨
        ((env.refresh s1 = .notRefreshed ∨ env.refresh s1 = .err) ∧ s = s1))) := by
@@ -174,13 +174,8 @@ theorem errorPage_refused (code : Nat) (ck : List CookieOp) : Refused (errorPage
 theorem doOAuthStart_refused (cfg : Cfg) (env : Env) (r : Req) (ex : List (Str × Str)) (pre : List CookieOp) :
     Refused (doOAuthStart cfg env r ex pre) := by
   unfold doOAuthStart
-  split
-  · exact errorPage_refused _ _
-  · split
-    · exact errorPage_refused _ _
-    · split
-      · exact errorPage_refused _ _
-      · simp [Refused]
+  repeat' split
+  all_goals simp [Refused, errorPage, startRedirect]
 
 theorem signInPage_refused (env : Env) (code : Nat) (pre : List CookieOp) : Refused (signInPage env code pre) := by
   unfold signInPage
@@ -269,11 +264,46 @@ theorem signInHandler_not_served (cfg : Cfg) (env : Env) (r : Req) : ¬ Served (
       · exact refused_not_served _ (doOAuthStart_refused _ _ _ _ _)
       · exact refused_not_served _ (signInPage_refused _ _ _)
 
-theorem callbackHandler_not_served (cfg : Cfg) (env : Env) (r : Req) (d : Str → Str) :
-    ¬ Served (callbackHandler cfg env r d) := by
-  unfold callbackHandler Served
+/-- outcomes that neither forward nor disclose: error page or plain redirect -/
+def NoServe (r : Resp) : Prop := r.forwarded = none ∧ r.disclosed = none ∧ (r.kind = .errorPage ∨ r.kind = .redirect)
+
+theorem noServe_not_served (r : Resp) (h : NoServe r) : ¬ Served r := by
+  rcases h with ⟨h1, _, h3⟩
+  rintro (h | h | h | h)
+  · simp [h1] at h
+  all_goals (rcases h3 with h3 | h3 <;> simp [h] at h3)
+
+theorem callbackFinish_noServe (cfg : Cfg) (env : Env) (name nonce rd code : Str) (csrf : CSRF) (s0 : Session) :
+    NoServe (callbackFinish cfg env name nonce rd code csrf s0) := by
+  unfold callbackFinish
+  simp only
   repeat' split
-  all_goals simp [errorPage]
+  all_goals simp [NoServe, errorPage]
+
+theorem callbackWithState_noServe (cfg : Cfg) (env : Env) (r : Req) (nonce rd : Str) :
+    NoServe (callbackWithState cfg env r nonce rd) := by
+  unfold callbackWithState
+  simp only
+  split
+  · simp [NoServe, errorPage]
+  · split
+    · simp [NoServe, errorPage]
+    · split
+      · simp [NoServe, errorPage]
+      · exact callbackFinish_noServe ..
+
+theorem callbackHandler_noServe (cfg : Cfg) (env : Env) (r : Req) (d : Str → Str) :
+    NoServe (callbackHandler cfg env r d) := by
+  unfold callbackHandler
+  split
+  · simp [NoServe, errorPage]
+  · simp only
+    split
+    · simp [NoServe, errorPage]
+    · exact callbackWithState_noServe ..
+
+theorem callbackHandler_not_served (cfg : Cfg) (env : Env) (r : Req) (d : Str → Str) :
+    ¬ Served (callbackHandler cfg env r d) := noServe_not_served _ (callbackHandler_noServe ..)
 
 /-- **c01_only_if**: a request is served only if a bypass applies or the session chain produced a
     session that passes the authorisation rules. -/
@@ -317,5 +347,129 @@ theorem c01_served_has_credential (cfg : Cfg) (env : Env) (g : Glue) (r : Req) (
   rcases c01_only_if cfg env g r h with hb | ⟨s, hs, ha⟩
   · exact Or.inl hb
   · exact Or.inr ⟨s, c01_loaders_sound cfg env r s hs, ha⟩
+
+
+/-! ### "every other request" and "conversely" -/
+
+theorem serve_proxy_eq (cfg : Cfg) (env : Env) (g : Glue) (r : Req)
+    (hh : (cfg.forceHTTPS && !httpsOK cfg r) = false) (hc : env.clean r.path = r.path)
+    (hep : classify cfg r = .proxy) :
+    serve cfg env g r = proxyHandler cfg env r (bypassDecision cfg env g.pathOfURI r) (sessionChain cfg env r) := by
+  unfold serve; simp [hh, hep, hc]
+
+theorem serve_authOnly_eq (cfg : Cfg) (env : Env) (g : Glue) (r : Req)
+    (hh : (cfg.forceHTTPS && !httpsOK cfg r) = false) (hc : env.clean r.path = r.path)
+    (hep : classify cfg r = .authOnly) :
+    serve cfg env g r = authOnlyHandler cfg env (bypassDecision cfg env g.pathOfURI r) (sessionChain cfg env r) (g.constraintsOK r.query) := by
+  unfold serve; simp [hh, hep, hc]
+
+theorem serve_userInfo_eq (cfg : Cfg) (env : Env) (g : Glue) (r : Req)
+    (hh : (cfg.forceHTTPS && !httpsOK cfg r) = false) (hc : env.clean r.path = r.path)
+    (hep : classify cfg r = .userInfo) :
+    serve cfg env g r = userInfoHandler cfg env (bypassDecision cfg env g.pathOfURI r) (sessionChain cfg env r) := by
+  unfold serve; simp [hh, hep, hc]
+
+/-- **c01_otherwise**: on the endpoints that can serve, a request without bypass and without a
+    session gets a sign-in page, a redirect to the IdP, a 401/403 or an error page — never the
+    upstream, never user data. (All other endpoints never serve at all: `c01_only_if`.) -/
+theorem c01_otherwise (cfg : Cfg) (env : Env) (g : Glue) (r : Req)
+    (hh : (cfg.forceHTTPS && !httpsOK cfg r) = false) (hc : env.clean r.path = r.path)
+    (hep : classify cfg r = .proxy ∨ classify cfg r = .authOnly ∨ classify cfg r = .userInfo)
+    (hb : bypassDecision cfg env g.pathOfURI r = false)
+    (hs : (sessionChain cfg env r).session = none ∨
+          ∃ s, (sessionChain cfg env r).session = some s ∧ ¬ Authorised cfg env s) :
+    Refused (serve cfg env g r) := by
+  have hno : ∀ so, getAuthenticatedSession cfg env (bypassDecision cfg env g.pathOfURI r) (sessionChain cfg env r).session ≠ .ok so := by
+    intro so hso
+    rcases (getAuth_ok_iff _ _ _ _ _).1 hso with ⟨hb', _⟩ | ⟨_, s, hs', _, ha⟩
+    · rw [hb] at hb'; cases hb'
+    · rcases hs with hs | ⟨s', hs1, hs2⟩
+      · rw [hs] at hs'; cases hs'
+      · rw [hs1] at hs'; cases hs'; exact hs2 ha
+  rcases hep with hep | hep | hep
+  · rw [serve_proxy_eq cfg env g r hh hc hep]
+    rcases proxyHandler_cases cfg env r (bypassDecision cfg env g.pathOfURI r) (sessionChain cfg env r) with ⟨so, hso, _⟩ | ⟨_, hr⟩
+    · exact absurd hso (hno so)
+    · exact hr
+  · rw [serve_authOnly_eq cfg env g r hh hc hep]
+    rcases authOnlyHandler_cases cfg env (bypassDecision cfg env g.pathOfURI r) (sessionChain cfg env r) (g.constraintsOK r.query) with ⟨so, hso, _⟩ | hr
+    · exact absurd hso (hno so)
+    · exact hr
+  · rw [serve_userInfo_eq cfg env g r hh hc hep]
+    rcases userInfoHandler_cases cfg env (bypassDecision cfg env g.pathOfURI r) (sessionChain cfg env r) with ⟨so, hso, _⟩ | hr
+    · exact absurd hso (hno so)
+    · exact hr
+
+/-- **c01_conversely**: a request with a valid, authorised credential is served: forwarded upstream
+    with the identity of exactly that session / given that session's user info / answered 202
+    when the auth-only constraints hold. -/
+theorem c01_conversely (cfg : Cfg) (env : Env) (g : Glue) (r : Req) (s : Session)
+    (hh : (cfg.forceHTTPS && !httpsOK cfg r) = false) (hc : env.clean r.path = r.path)
+    (hs : (sessionChain cfg env r).session = some s) (ha : Authorised cfg env s) :
+    (classify cfg r = .proxy → (serve cfg env g r).forwarded = some (some s) ∧ (serve cfg env g r).kind = .upstream) ∧
+    (classify cfg r = .userInfo → (serve cfg env g r).disclosed = some s ∧ (serve cfg env g r).kind = .userInfo) ∧
+    (classify cfg r = .authOnly → g.constraintsOK r.query s = true →
+        (serve cfg env g r).kind = .accepted ∧ (serve cfg env g r).disclosed = some s) := by
+  have hok : getAuthenticatedSession cfg env (bypassDecision cfg env g.pathOfURI r) (sessionChain cfg env r).session = .ok (some s) := by
+    rw [getAuth_ok_iff]
+    cases hb : bypassDecision cfg env g.pathOfURI r with
+    | true => left; exact ⟨rfl, hs.symm⟩
+    | false => right; exact ⟨rfl, s, hs, rfl, ha⟩
+  refine ⟨fun hep => ?_, fun hep => ?_, fun hep hcok => ?_⟩
+  · rw [serve_proxy_eq cfg env g r hh hc hep]; unfold proxyHandler; rw [hok]; exact ⟨rfl, rfl⟩
+  · rw [serve_userInfo_eq cfg env g r hh hc hep]; unfold userInfoHandler; rw [hok]; exact ⟨rfl, rfl⟩
+  · rw [serve_authOnly_eq cfg env g r hh hc hep]; unfold authOnlyHandler; rw [hok]; simp [hcok]
+
+/-- only the upstream handler forwards: a forwarded request is one `Proxy` accepted -/
+theorem forwarded_only_by_proxy (cfg : Cfg) (env : Env) (g : Glue) (r : Req)
+    (h : (serve cfg env g r).forwarded.isSome = true) :
+    classify cfg r = .proxy ∧ (serve cfg env g r).kind = .upstream := by
+  have h0 := h
+  unfold serve at h
+  split at h
+  · simp at h
+  · rename_i hh
+    split at h
+    · simp at h
+    · split at h <;> simp at h
+    · rename_i ep hping hready
+      split at h
+      · simp at h
+      · rename_i hcl
+        have hh' : (cfg.forceHTTPS && !httpsOK cfg r) = false := by simpa using hh
+        have hc' : env.clean r.path = r.path := by simpa using hcl
+        split at h
+        · simp at h
+        · simp at h
+        · exact absurd (Or.inl h) (signInHandler_not_served _ _ _)
+        · exact absurd (Or.inl h) (refused_not_served _ (doOAuthStart_refused _ _ _ _ _))
+        · exact absurd (Or.inl h) (callbackHandler_not_served _ _ _ _)
+        · rcases authOnlyHandler_cases cfg env (bypassDecision cfg env g.pathOfURI r) (sessionChain cfg env r) (g.constraintsOK r.query) with ⟨so, _, _, _, _, hf⟩ | hr
+          · simp only at h; rw [hf] at h; simp at h
+          · simp only at h; rw [hr.1] at h; simp at h
+        · rcases userInfoHandler_cases cfg env (bypassDecision cfg env g.pathOfURI r) (sessionChain cfg env r) with ⟨so, _, _, hf, _⟩ | hr
+          · simp only at h; rw [hf] at h; simp at h
+          · simp only at h; rw [hr.1] at h; simp at h
+        · exact absurd (Or.inl h) (signOutHandler_not_served _ _ _ _)
+        · have hep : classify cfg r = .proxy := by
+            cases hc : classify cfg r <;> simp_all
+          refine ⟨hep, ?_⟩
+          rw [serve_proxy_eq cfg env g r hh' hc' hep] at h0 ⊢
+          rcases proxyHandler_cases cfg env r (bypassDecision cfg env g.pathOfURI r) (sessionChain cfg env r) with ⟨so, _, _, hk⟩ | ⟨_, hr⟩
+          · exact hk
+          · rw [hr.1] at h0; simp at h0
+
+/-- non-vacuity: a concrete environment in which a stored, fresh, authorised session is served -/
+def exEnv : Env :=
+  { rx := fun _ _ => false, clean := id, trustedText := fun _ _ => false, bearerOf := fun _ => none,
+    basicOf := fun _ => none, load1 := .ok { email := "a@b.c".toList, user := "u".toList }, lock := .obtained,
+    load2 := .noCookie, refresh := fun _ => .err, saveOK := true, tokenVerifies := fun _ => true, nonceClaim := fun _ => some [], clearOK := true,
+    emailOK := fun _ => true, getRedirect := fun _ _ _ _ _ _ _ => "/".toList, isValidRedirect := fun _ => true,
+    csrfByName := fun _ => none, redeem := fun _ _ _ => .err, enrichOK := fun _ => true, freshState := [], freshNonce := [],
+    freshVerifier := [], hash := id, challenge := fun _ _ => none, ready := true, htpasswdOK := fun _ _ => false,
+    oauthRedirectURIOf := fun _ _ => [], loginURL := fun _ _ _ _ => [], csrfCookieName := fun _ => [], now := 0 }
+def exGlue : Glue := { pathOfURI := id, decodeB64 := id, constraintsOK := fun _ _ => true }
+example : (serve {} exEnv exGlue { method := "GET".toList, path := "/x".toList }).kind = .upstream := by decide
+example : (serve {} { exEnv with load1 := .noCookie } exGlue { method := "GET".toList, path := "/x".toList }).kind = .signInPage := by decide
 
 end O2P
